@@ -9,7 +9,7 @@
 /// code under test compares `Result<Bit, String>` values with `==`).
 #[cfg(kani)]
 pub fn format_stub(_args: core::fmt::Arguments<'_>) -> String {
-    String::new()
+    String::from("e")
 }
 
 /// Bit `i` of a 32-byte label value, most significant bit of byte 0 first.
